@@ -314,6 +314,19 @@ static long eval_const_expr(Token **rest, Token *tok) {
   // Convert pp-numbers to regular numbers
   convert_pp_tokens(expr);
 
+  // [https://www.sigbus.info/n1570#6.10.1p4] In a controlling expression
+  // all signed integer types act as intmax_t and all unsigned ones as
+  // uintmax_t: `#if 0xFFFFFFFF + 1` is true and `#if -1 < 0u` is false.
+  // A 32-bit number is unsigned only if it has a `u` suffix.
+  for (Token *t = expr; t->kind != TK_EOF; t = t->next) {
+    if (t->kind != TK_NUM || !is_integer(t->ty))
+      continue;
+    bool is_unsigned = t->ty->is_unsigned;
+    if (is_unsigned && t->ty->size < 8 && '0' <= *t->loc && *t->loc <= '9')
+      is_unsigned = memchr(t->loc, 'u', t->len) || memchr(t->loc, 'U', t->len);
+    t->ty = is_unsigned ? ty_ulong : ty_long;
+  }
+
   Token *rest2;
   long val = const_expr(&rest2, expr);
   if (rest2->kind != TK_EOF)
